@@ -11,13 +11,19 @@ V = os.path.dirname(os.path.dirname(os.path.abspath(__file__)))
 names = sys.argv[1:] or sorted(d for d in os.listdir(V + "/seeded") if os.path.isdir(V + "/seeded/" + d))
 respath = V + "/seeded/RESULTS.json"
 results = json.load(open(respath)) if os.path.exists(respath) else {}
-assert subprocess.run(["git", "-C", "/repo", "status", "--porcelain", "--untracked-files=no"], capture_output=True, text=True).stdout.strip() == "", "/repo not clean"
+# The patch is applied in a scratch worktree of /repo's HEAD (removed afterwards) and the
+# checks are pointed at it with VERIF_REPO, so /repo itself is never touched and builders
+# running checks against /repo at the same time are not disturbed.
+WT = "/root/scratch/seeded_wt"
 for n in names:
     d = V + "/seeded/" + n
     meta = json.load(open(d + "/meta.json"))
     checks = meta["checks_expected_to_catch"] + meta.get("also_run", [])
-    if subprocess.run(["git", "-C", "/repo", "apply", d + "/patch.diff"]).returncode != 0:
+    subprocess.run(["git", "-C", "/repo", "worktree", "remove", "--force", WT], capture_output=True)
+    subprocess.run(["git", "-C", "/repo", "worktree", "add", "-q", "--detach", WT, "HEAD"], check=True)
+    if subprocess.run(["git", "-C", WT, "apply", d + "/patch.diff"]).returncode != 0:
         results[n] = {"error": "patch does not apply"}
+        subprocess.run(["git", "-C", "/repo", "worktree", "remove", "--force", WT])
         continue
     try:
         r = {}
@@ -27,6 +33,7 @@ for n in names:
                 continue
             env = dict(os.environ)
             env["VERIF_EVIDENCE_DIR"] = V + "/_build/seeded_evidence"
+            env["VERIF_REPO"] = WT
             p = subprocess.run([V + "/check", c, "--tier", "quick"], capture_output=True, text=True, cwd=V, env=env)
             vio = [l for l in p.stdout.splitlines() if l.startswith("VIOLATION")]
             r[c] = {"exit": p.returncode, "violation": vio[0] if vio else None}
@@ -40,5 +47,5 @@ for n in names:
         results[n] = r
         print(n, json.dumps(r)[:400])
     finally:
-        subprocess.run(["git", "-C", "/repo", "checkout", "--", "."])
+        subprocess.run(["git", "-C", "/repo", "worktree", "remove", "--force", WT])
 json.dump(results, open(respath, "w"), indent=1, sort_keys=True)
